@@ -901,10 +901,10 @@ def tie_numbers(run: Run) -> None:
         if im.parse_integer_literal is not None:
             tok = im.Token(type_=im.TokenType.INT, value=s, index=0, source=s)
             out = attempt(im.parse_integer_literal, tok)
-            if out[0] == "ok" and not isinstance(out[1], int):
-                out = ("err", TypeError("not an int"))
             exp: str | None
-            if out[0] == "ok":
+            if out[0] == "ok" and not isinstance(out[1], int):
+                exp = "(PyExc OtherPyError)"      # int * float: a negative exponent, never an INT token
+            elif out[0] == "ok":
                 fact = (int(mant_s), int(ex_s)) if valid_int and ex_s and len(ex_s) < 6 else (None, 0)
                 z = c_bigint(out[1], *fact)
                 exp = f"(Ok {z})" if z is not None else None
@@ -1043,6 +1043,9 @@ def main(chk: C.Check, build: C.Build) -> None:
     tie_json(run)
     lap("tie_json")
 
+    if os.environ.get("C20_DUMP"):
+        with open(os.environ["C20_DUMP"], "w") as f:
+            json.dump([it["case"] for it in run.items], f)
     if run.items and not os.environ.get("C20_NOCOQ"):
         C.correspond(chk, "c20", IMPORTS, DEFS, run.items, what="literals", shard=max(400, len(run.items) // 15 + 1))
     lap("coq")
